@@ -212,5 +212,64 @@ def extra(ctx):
                               "expected": exp, "observed_on_real_libccp": got, "plan(c1,c2,c3,cwnd,c2')": [c1, c2, c3, cw, u2]})
                 break
         checked += 1
-    return fails[:5], {"libccp_behaves_accordingly": {"scripts": len(plans), "agree_with_expectation_and_model": checked,
-                                                      "messages": "install, change-program(2 fields), update-fields(0/1/2 fields incl. Cwnd)"}}
+    # ---- the limits of libccp 1.2.0 itself: what portus can encode but the datapath refuses or cannot hold
+    lim = {}
+    one = "(def (Report (a 0)) (c1 5)) (when true (:= Report.a c1) (report))"
+    r1 = core.run_impl(["CMP 0 %s - -" % one.encode().hex()]).get("0", "")
+    if r1.startswith("OK "):
+        im1 = bytes.fromhex(r1.split(" ")[1])
+        inst1 = struct.pack("<HHIIII", 2, 20 + len(im1), 0, 7, 1, (len(im1) - 16) // 16) + im1
+        zero = ",".join(["0"] * 15)
+        cp0 = struct.pack("<HHIII", 4, 16, 1, 7, 0).hex()
+        probes = []   # (kind, n, script, value the next report must show)
+        for n in (126, 127, 128, 200, 255):
+            m = core.run_impl(["ENC 0 UF 1 %d %s" % (n, ",".join("C0n=%d" % (100 + i) for i in range(n)))]).get("0", "")
+            if m.startswith("OK "):
+                probes.append(("UF", n, ["M " + inst1.hex(), "S 10 1460 1 2 3 4 -", "M " + cp0, "T 10", "I 1 10 10 " + zero,
+                                         "M " + m.split(" ")[1], "T 20", "I 1 10 10 " + zero], 100 + n - 1, 5))
+        for n in (221, 222, 223, 300):
+            m = core.run_impl(["ENC 0 CP 1 7 %d %s" % (n, ",".join("C0n=%d" % (100 + i) for i in range(n)))]).get("0", "")
+            if m.startswith("OK "):
+                probes.append(("CP", n, ["M " + inst1.hex(), "S 10 1460 1 2 3 4 -", "M " + m.split(" ")[1], "T 10", "I 1 10 10 " + zero], 100 + n - 1, 2))
+        res = core.run_cvm(["VM %d %s" % (i, " ; ".join(p[2])) for i, p in enumerate(probes)])
+        for i, (kind, n, script, want, mi) in enumerate(probes):
+            parts = res.get(str(i), "").split(" | ")
+            try:
+                rc = parts[mi + 1].split(" ")[1]
+                rep = parts[-1].split(" ")[-1]
+                val = struct.unpack_from("<Q", bytes.fromhex(rep), 16)[0] if rep not in ("-", "") else None
+            except (IndexError, ValueError, struct.error):
+                rc, val = "?", None
+            ok = rc == "0" and val == want
+            lim["%s n=%d" % (kind, n)] = "accepted and applied" if ok else "libccp rc=%s, report shows %s instead of %d" % (rc, val, want)
+            if not ok:
+                fid = ("C06-libccp-refuses-128..255-updates" if kind == "UF" and 128 <= n <= 255 else
+                       "C06-libccp-refuses-223+-changeprog-fields" if kind == "CP" and n >= 223 else None)
+                fails.append({"property": ID, "kind": "failing-input", "finding_id": fid, "case": "VM x " + " ; ".join(script)[:4000],
+                              "relation": "libccp accepts the %s message with %d updates that portus built and applies it" % (kind, n),
+                              "libccp_rc": rc, "next_report_shows": val, "expected": want})
+        # an INSTALL with more instructions than libccp's 256-entry arrays (its own count check never fires)
+        for k in (62, 65):   # 1 DEF + 4 instructions per event: 249 and 261 instructions
+            big = "(def (Report (a 0))) " + " ".join("(when true (:= Report.a (+ Report.a 1)) (fallthrough))" for _ in range(k - 1)) + " (when true (:= Report.a (+ Report.a 1)) (report))"
+            rb = core.run_impl(["CMP 0 %s - -" % big.encode().hex()]).get("0", "")
+            if not rb.startswith("OK "):
+                continue
+            imb = bytes.fromhex(rb.split(" ")[1])
+            ni_b = (len(imb) - 16 * k) // 16
+            instb = struct.pack("<HHIIII", 2, 20 + len(imb), 0, 7, k, ni_b) + imb
+            out = core.run_cvm(["VM 0 " + " ; ".join(["M " + instb.hex(), "S 10 1460 1 2 3 4 -", "M " + cp0, "T 10", "I 1 10 10 " + zero])]).get("0", "")
+            rep = out.split(" | ")[-1].split(" ")[-1] if " | " in out else ""
+            try:
+                val = struct.unpack_from("<Q", bytes.fromhex(rep), 16)[0]
+            except (ValueError, struct.error):
+                val = None
+            ok = val == k
+            lim["IN %d instructions" % ni_b] = "accepted, runs, reports %s" % val if ok else "libccp: %s" % (out[:80] or "no answer")
+            if not ok:
+                fails.append({"property": ID, "kind": "failing-input", "finding_id": "C06-libccp-install-over-255-instructions" if ni_b > 255 else None,
+                              "case": "VM x M %s ; S 10 1460 1 2 3 4 - ; M %s ; T 10 ; I 1 10 10 %s" % (instb.hex(), cp0, zero),
+                              "relation": "libccp accepts the INSTALL message of a compiled program with %d events / %d instructions and runs it" % (k, ni_b),
+                              "libccp_answer": out[:300], "expected_report": k})
+    return fails[:12], {"libccp_behaves_accordingly": {"scripts": len(plans), "agree_with_expectation_and_model": checked,
+                                                       "messages": "install, change-program(2 fields), update-fields(0/1/2 fields incl. Cwnd)"},
+                        "libccp_limits": lim}
